@@ -1,3 +1,35 @@
 package main
 
-func childMain(addr string) {}
+import (
+	"flag"
+	"fmt"
+	"math/rand"
+	"os"
+
+	"github.com/kwertop/gostatix"
+)
+
+// childMain: `gsharness -child <redis addr> <kind> <metadataKey> observe|update`
+// attaches to an existing Redis-backed structure from a separate OS process.
+func childMain(addr string) {
+	args := flag.Args()
+	if len(args) != 3 {
+		fmt.Fprintln(os.Stderr, "child: want <kind> <metadataKey> <action>")
+		os.Exit(2)
+	}
+	gostatix.MakeRedisClient(gostatix.RedisConnOptions{Address: addr})
+	k := raKindByName(args[0])
+	if k == nil {
+		os.Exit(2)
+	}
+	h, err := k.attach(args[1])
+	if err != nil || h == nil {
+		fmt.Println("ATTACH-FAILED", err)
+		return
+	}
+	c := &Ctx{rng: rand.New(rand.NewSource(99)), rep: &Report{Ops: map[string]int{}, Branches: map[string]int{}, seen: map[string]bool{}}}
+	if args[2] == "update" {
+		k.eq.feed(c, h, []int{5, 17})
+	}
+	fmt.Println(raObserve(k, h))
+}
